@@ -136,8 +136,14 @@ def quadrature_regions(prog: Program) -> Dict[str, Tuple[Poly, Poly, object, obj
 def closed_forms(prog: Program) -> Dict[str, Tuple[Optional[EtaForm], ast.AST]]:
     u = prog.unit(f"{BC}:CustomSD.correlation_2d_integral")
     out = {}
+    # the closed form is assigned to the variable the method returns
+    ret_names = {r.value.id for r in walk_local(u.node) if isinstance(r, ast.Return)
+                 and isinstance(r.value, ast.Name)}
+    if len(ret_names) != 1:
+        raise AnalysisError("L1: CustomSD.correlation_2d_integral no longer returns one local")
+    acc = ret_names.pop()
     for st in walk_local(u.node):
-        if isinstance(st, ast.Assign) and dotted(st.targets[0]) == "integral" \
+        if isinstance(st, ast.Assign) and dotted(st.targets[0]) == acc \
                 and not isinstance(st.value, ast.Attribute):
             ctx = branch_context(u.node, st)
             shapes = [t.comparators[0].value for (t, br) in ctx if br
